@@ -57,6 +57,7 @@ type Gen struct {
 	entry    *State
 	modset   func(r string) string // "ref r may be modified by the top function" ; nil = nothing
 	modRefs  []string
+	modRanges []modRange
 	recvSliceInv func(st *State) []string
 	inputBufs  []string // []byte parameters that must not be retained (noalias mode)
 	inputNames []string
@@ -426,6 +427,53 @@ func (g *Gen) framedHeap(base, k, h, bound string, mods []string, allocates bool
 type modTarget struct {
 	kinds    map[string]bool
 	off, len string // "" = whole object
+	// pointer targets: the slots of the pointee by heap kind (relative to off); the havoc is a chain of stores
+	slotsK map[string][]int
+}
+
+// modRange: one modifies target of the function under verification: slots [lo,hi) of object ref (lo == "": whole object)
+type modRange struct{ ref, lo, hi string }
+
+// modsetR: slots [lo,hi) of object ref lie within one modifies target of the function under verification
+func (g *Gen) modsetR(ref, lo, hi string) string {
+	if g.modAll {
+		return "true"
+	}
+	var alts []string
+	for _, m := range g.modRanges {
+		if m.lo == "" {
+			alts = append(alts, fmt.Sprintf("(= %s %s)", ref, m.ref))
+		} else if lo != "" {
+			alts = append(alts, fmt.Sprintf("(and (= %s %s) (<= %s %s) (<= %s %s))", ref, m.ref, m.lo, lo, hi, m.hi))
+		}
+	}
+	if len(alts) == 0 {
+		return "false"
+	}
+	if len(alts) == 1 {
+		return alts[0]
+	}
+	return "(or " + strings.Join(alts, " ") + ")"
+}
+
+// kindSlots: slot offsets of an inline value of type t by heap kind
+func kindSlots(t types.Type, base int, out map[string][]int) {
+	switch u := t.Underlying().(type) {
+	case *types.Struct:
+		for i := 0; i < u.NumFields(); i++ {
+			kindSlots(u.Field(i).Type(), base+fieldSlot(u, i), out)
+		}
+		return
+	case *types.Array:
+		n := slots(u.Elem())
+		for i := 0; i < int(u.Len()); i++ {
+			kindSlots(u.Elem(), base+i*n, out)
+		}
+		return
+	}
+	if k := kindOf(t); k != "" {
+		out[k] = append(out[k], base)
+	}
 }
 
 func (g *Gen) framedHeapK(base, k, h, bound string, mods []string, modKinds []modTarget, allocates bool) string {
@@ -433,6 +481,19 @@ func (g *Gen) framedHeapK(base, k, h, bound string, mods []string, modKinds []mo
 	ek := elemKind(k)
 	for i, m := range mods {
 		if modKinds != nil && i < len(modKinds) && modKinds[i].kinds != nil && !modKinds[i].kinds[k] {
+			continue
+		}
+		if modKinds != nil && i < len(modKinds) && modKinds[i].slotsK != nil {
+			offs := modKinds[i].slotsK[k]
+			if len(offs) == 0 {
+				continue
+			}
+			rowt := fmt.Sprintf("(select %s %s)", cur, m)
+			for _, o := range offs {
+				v := g.havoc(base+"_slot"+k, heapElemSort[k])
+				rowt = fmt.Sprintf("(store %s (+ %s %d) %s)", rowt, modKinds[i].off, o, v)
+			}
+			cur = fmt.Sprintf("(store %s %s %s)", cur, m, rowt)
 			continue
 		}
 		if modKinds != nil && i < len(modKinds) && modKinds[i].off != "" {
